@@ -100,6 +100,12 @@ def bad_entries():
     ('ts--inf', ('a', (-math.inf, 1.0))),
     ('ts-none', ('a', (None, 1.0))),
     ('value-nan', ('a', (1, math.nan))),
+    # wrong shape AND something python refuses to render (int() -> str conversion limit)
+    ('entry-huge-int', 10 ** 5000),
+    ('arity-2-huge-int', ('a', 10 ** 5000)),
+    ('arity-3-huge-int', ('a', (1, 2.0), 10 ** 5000)),
+    ('metric-huge-int', (10 ** 5000, (1, 2.0))),
+    ('value-huge-int', ('a', (1, 10 ** 5000))),
   ]
 
 
@@ -167,7 +173,14 @@ def run_stream_case(case):
     # the over-length line: all segmentations are too many; every <=1-cut segmentation instead
     res = []
     n = 0
-    for cut in [None] + list(range(1, len(stream), 257)):
+    first = None
+    bounds = []
+    o = 0
+    for it in stream_items:
+      o += len(it)
+      bounds.append(o)
+    cuts = [None] + sorted(set(range(1, len(stream), 257)) | set(p for b in bounds for p in (b - 1, b, b + 1) if 0 < p < len(stream)))
+    for cut in cuts:
       r = segx.run_cuts(kind, stream, [] if cut is None else [cut])
       n += 1
       if r.exc is not None:
@@ -177,6 +190,13 @@ def run_stream_case(case):
       before = expected(valid[:pos])
       if list(r.sh['delivered'])[:len(before)] != before:
         res.append(('neighbours-harmed:' + kind, '%s: datapoints before the over-length line lost: %r' % (what, list(r.sh['delivered'])),
+                    dict(rep, stream_hex='', cuts=[cut])))
+        break
+      obs = r.observable()
+      if first is None:
+        first = (cut, obs)
+      elif obs != first[1]:
+        res.append(('segmentation-dependent:' + kind, '%s: cut at %r gives %r, cut at %r gives %r' % (what, first[0], first[1], cut, obs),
                     dict(rep, stream_hex='', cuts=[cut])))
         break
     return (n, n, n, res)
